@@ -42,7 +42,7 @@ def oracle(tier, rng, deep=False):
     failures = []
     ev = nontriv = 0
     tol = 1e-9
-    nrep = 6 if tier == "quick" and not deep else 40
+    nrep = 6 if tier == "quick" and not deep else (18 if tier == "quick" else 40)   # quick + broken obligation: 3x the quick search
 
     def compare(label, sols, F, inp, fi):
         """sols: list of (name, w, b, stop)"""
